@@ -451,6 +451,12 @@ def _signature(case, what):
     sel = case["sel"]
     kind = "partitions" if sel["kind"] in ("partitions", "get_partition", "to_delayed_sel") else sel["kind"]
     mech = _MECHANISM[case["chain"]] or ("source:" + case["source"])
+    if kind in ("head", "tail", "nested_head") and case["source"].startswith("read_parquet"):
+        try:
+            if _has_fused_io(build(case["source"], case["chain"])):
+                mech = "fused-io"  # the tune stage re-partitions the reader below the head
+        except Exception:  # noqa: BLE001
+            pass
     sig = {"check": kind, "mechanism": mech, "what": what}
     if "P" in sel:
         shape = _sel_shape(sel["P"])
